@@ -1,6 +1,6 @@
 \* binding demonstration: the classification TrivialEnc replaced by the mutant TrivialEncNoIdMutant -- TLC must find a counterexample type tree
-CONSTANTS Universe = "d1" SampleD2 = 0 SampleD3 = 0
+CONSTANTS Universe = "d1" SampleD2 = 0 SampleD3 = 0 Part = 0 NParts = 1 WithNamed = TRUE
 CONSTANT TrivialEnc <- TrivialEncNoIdMutant
 SPECIFICATION Spec
-INVARIANT Inv
+INVARIANT InvC10
 CHECK_DEADLOCK FALSE
